@@ -102,6 +102,13 @@ package car
 //@   ensures untouched_on_error [C06]: err != nil ==> h.DataOffset == old(h.DataOffset) && h.DataSize == old(h.DataSize) && h.IndexOffset == old(h.IndexOffset)
 
 //@ func NewBlockReader
+//@   let h1, h1err := call[carv1.ReadHeader#1]
+//@   ensures v1_fields [C14]: err == nil && result0.Version == 1 ==> result0.Roots == hdr.Roots && result0.readerSize == -1
+//@   ensures v2_fields [C14]: err == nil && result0.Version == 2 ==> result0.Roots == h1.Roots && h1.Version == 1 && result0.readerSize == wrap_s64(wrap_u64(cur(v2h).DataOffset + cur(v2h).DataSize)) && result0.v1offset == cur(v2h).DataOffset
+//@   call[fmt.Errorf#1] assert refuses_only_an_inner_header_that_is_not_version_1 [C14]: h1err == nil && h1.Version != 1
+//@   call[fmt.Errorf#0] assert refuses_only_an_unknown_version [C09,C14]: hdr.Version != 1 && hdr.Version != 2
+//@   call[Seeker.Seek#0] assert skips_the_padding_to_the_payload [C14]: arg1 == wrap_s64(wrap_s64(wrap_s64(cur(v2h).DataOffset) - 11) - 40) && arg2 == 1
+//@   call[io.LimitReader#0] assert payload_window [C02,C14]: ref(arg0) == ref(r) && arg1 == wrap_s64(cur(v2h).DataSize)
 //@   call[carv1.ReadHeader#0] assert configured_header_limit [C09]: arg1 == options.MaxAllowedHeaderSize
 //@   call[carv1.ReadHeader#1] assert configured_header_limit [C09]: arg1 == options.MaxAllowedHeaderSize
 //@   requires origin [C14]: pos(r) == 0 && sbase(r) == 0
@@ -133,6 +140,20 @@ package car
 //@   call[Prefix.Sum#0] assert hashes_with_the_cids_own_prefix [C01,C02]: arg0.Version == pversion(c) && arg0.Codec == pcodec(c) && arg0.MhType == mhtype(c) && arg0.MhLength == mhlen(c) && ref(arg1) == ref(data)
 
 //@ func (*BlockReader).SkipNext
+//@   ensures a_length_error_is_returned_as_it_is [C02,C14]: e0 != nil ==> err == e0 && result0 == nil
+//@   let finalOffset, fserr := call[Seeker.Seek#1]
+//@   let readCnt, cperr := call[io.CopyN#0]
+//@   call[cid.CidFromReader#0] assert key_is_read_within_the_section [C02,C14]: e0 == nil && sectionSize != 0
+//@   call[io.LimitReader#0] assert limited_to_the_section [C02,C14]: ref(arg0) == ref(br.r) && arg1 == wrap_s64(sectionSize)
+//@   call[Seeker.Seek#0] assert asks_for_the_current_position [C14]: arg1 == 0 && arg2 == 1 && br.readerSize == -1
+//@   call[Seeker.Seek#2] assert measures_the_end [C02,C14]: arg1 == 0 && arg2 == 2
+//@   call[Seeker.Seek#3] assert returns_to_where_it_was [C14]: arg2 == 0
+//@   call[Seeker.Seek#1] assert skips_exactly_the_block_bytes [C02,C14]: arg1 == wrap_s64(sectionSize - cidSize) && arg2 == 1 && e1 == nil
+//@   call[io.CopyN#0] assert discards_exactly_the_block_bytes [C02,C14]: ref(arg1) == ref(br.r) && arg2 == wrap_s64(sectionSize - cidSize) && e1 == nil
+//@   call[errors.New#0] assert refuses_only_a_seek_that_landed_elsewhere [C14]: fserr == nil && finalOffset != wrap_s64(wrap_s64(old(br.offset)) + wrap_s64(vsize(sectionSize)) + wrap_s64(sectionSize))
+//@   call[errors.New#1] assert refuses_only_a_short_copy [C14]: cperr == nil && readCnt != wrap_s64(sectionSize - cidSize)
+//@   check a_seek_past_the_end_is_an_unexpected_eof [C02]: executed("Seeker.Seek#1") && fserr == nil && finalOffset == wrap_s64(wrap_s64(old(br.offset)) + wrap_s64(vsize(sectionSize)) + wrap_s64(sectionSize)) ==> (err == nil) == (finalOffset <= br.readerSize)
+//@   check a_complete_copy_succeeds [C14]: executed("io.CopyN#0") && cperr == nil && readCnt == wrap_s64(sectionSize - cidSize) ==> err == nil
 //@   call[util.LdReadSize#0] assert configured_section_limit [C09]: arg1 == br.opts.ZeroLengthSectionAsEOF && arg2 == br.opts.MaxAllowedSectionSize
 //@   requires inv: br.offset == pos(br.r)
 //@   assume stream_bound: pos(br.r) >= 0 && pos(br.r) <= 4611686018427387904
@@ -205,6 +226,20 @@ package car
 //@   ensures v1_whole_source [C07]: r.Version != 2 ==> err == nil
 
 //@ func (*Reader).Inspect
+//@   let idxr, irerr := call[Reader.IndexReader#0]
+//@   let icodec, icerr := call[index.ReadCodec#0]
+//@   check clean_end_is_success [C02,C13]: executed("varint.ReadUvarint#0") && (slerr == io.EOF || (slerr == nil && sectionLength == 0 && r.opts.ZeroLengthSectionAsEOF)) ==> err == nil || err == irerr || err == icerr
+//@   check a_length_error_is_reported [C02,C13]: executed("varint.ReadUvarint#0") && slerr != nil && slerr != io.EOF ==> err == slerr
+//@   call[errors.New#0] assert refuses_only_a_section_shorter_than_its_key [C13]: slerr == nil && cerr == nil && sectionLength < cidLen
+//@   let v0cid := call[cid.NewCidV0#0]
+//@   let v1cid := call[cid.NewCidV1#0]
+//@   call[cid.NewCidV0#0] assert from_the_fresh_digest [C02,C13]: ref(arg0) == ref(mh)
+//@   call[cid.NewCidV1#0] assert from_the_sections_codec_and_the_fresh_digest [C02,C13]: arg0 == pcodec(c) && ref(arg1) == ref(mh)
+//@   call[Cid.Equals#0] assert compares_the_recomputed_cid [C02,C13]: arg0 == ite(pversion(c) == 0, v0cid, v1cid) && merr == nil
+//@   call[fmt.Errorf#0] assert refuses_only_an_unknown_cid_version [C13]: pversion(c) != 0 && pversion(c) != 1
+//@   call[fmt.Errorf#1] assert refuses_only_a_hash_mismatch [C02,C13]: !eq
+//@   call[index.ReadCodec#0] assert only_for_a_declared_index [C13]: r.Version != 1 && r.Header.IndexOffset != 0 && ref(arg0) == ref(idxr) && irerr == nil
+//@   check index_codec_reported_iff_declared [C13]: err == nil ==> result0.IndexCodec == ite(r.Version != 1 && r.Header.IndexOffset != 0, icodec, 0)
 //@   loop[0] invariant reader_ok [C13]: objinv(bdr)
 //@   loop[0] decreases lim(bdr) - pos(bdr)
 //@   let dr, derr := call[Reader.DataReader#0]
@@ -380,6 +415,10 @@ package car
 //@   ensures no_options_means_defaults [C04,C05,C09]: len(opt) == 0 ==> result.MaxAllowedHeaderSize == 33554432 && result.MaxAllowedSectionSize == 8388608 && result.IndexCodec == 1025 && result.MaxIndexCidSize == 2048 && result.DataPadding == 0 && result.IndexPadding == 0 && !result.StoreIdentityCIDs && !result.BlockstoreUseWholeCIDs && !result.BlockstoreAllowDuplicatePuts && !result.WriteAsCarV1 && !result.ZeroLengthSectionAsEOF && !result.TrustedCAR
 
 //@ func NewReader
+//@   let aopts := call[ApplyOptions#0]
+//@   call[ApplyOptions#0] assert the_callers_options [C09,C13]: arg0 == opts
+//@   ensures options_are_kept [C09,C13]: err == nil ==> result0.opts.MaxAllowedHeaderSize == aopts.MaxAllowedHeaderSize && result0.opts.MaxAllowedSectionSize == aopts.MaxAllowedSectionSize && result0.opts.ZeroLengthSectionAsEOF == aopts.ZeroLengthSectionAsEOF
+//@   ensures accepts_both_versions [C07,C13]: verr == nil && (ver == 1 || (ver == 2 && rverr == nil)) ==> err == nil
 //@   let ver, verr := call[ReadVersion#0]
 //@   let rverr := call[Reader.readV2Header#0]
 //@   call[ReadVersion#0] assert from_the_start_of_the_input [C07,C09,C13]: pos(arg0) == sbase(arg0) && arg1 == opts
